@@ -163,8 +163,153 @@ func genC08(rng *rand.Rand, n int, emit func(Case), dist map[string]int) {
 		SI8 []int8   `query:"si8"`
 		SU  []uint32 `query:"su32"`
 	}
+	encStr := func(x string) *big.Int { return new(big.Int).SetBytes(append([]byte{1}, x...)) }
+	encTime := func(t time.Time) *big.Int {
+		z := new(big.Int).Mul(big.NewInt(t.Unix()), big.NewInt(1_000_000_000))
+		return z.Add(z, big.NewInt(int64(t.Nanosecond())))
+	}
 	for it := 0; it < n; it++ {
 		pick := func() string { return texts[rng.Intn(len(texts))] }
+		if rng.Intn(8) == 0 {
+			// ---------------- the scalar methods binder.go writes out by hand: unmarshaler destinations, String, Unix times
+			ff := rng.Intn(2) == 0
+			q := url.Values{}
+			type xcall struct {
+				name, param, text string
+				tu                c08Text
+				str               string
+				tm                time.Time
+			}
+			var xs []*xcall
+			names := []string{"TextUnmarshaler", "MustTextUnmarshaler", "BindUnmarshaler", "MustBindUnmarshaler", "JSONUnmarshaler", "MustJSONUnmarshaler",
+				"String", "MustString", "UnixTime", "MustUnixTime", "UnixTimeMilli", "MustUnixTimeMilli", "UnixTimeNano", "MustUnixTimeNano"}
+			timeTexts := []string{"0", "1", "-1", "1609180603", "1609180603123", "1609180603123456789", "x", "", "1e3", "99999999999", " 1", "+5", "007"}
+			for k := 1 + rng.Intn(3); k > 0; k-- {
+				x := &xcall{name: names[rng.Intn(len(names))], param: fmt.Sprintf("x%d", len(xs)), tu: c08Text{V: 7}, str: "PRESET", tm: time.Unix(7, 0)}
+				switch {
+				case strings.Contains(x.name, "UnixTime"):
+					x.text = timeTexts[rng.Intn(len(timeTexts))]
+				case rng.Intn(2) == 0:
+					x.text = []string{"1", "127", "-128", "128", "x", "", "12", "+3", "-0"}[rng.Intn(9)]
+				default:
+					x.text = pick()
+				}
+				if rng.Intn(8) != 0 {
+					q.Add(x.param, x.text)
+				} else {
+					x.text = "" // absent
+				}
+				xs = append(xs, x)
+			}
+			req := httptest.NewRequest(http.MethodGet, "/?"+q.Encode(), nil)
+			c := recycledContext(e, req, httptest.NewRecorder())
+			b := echo.QueryParamsBinder(c).FailFast(ff)
+			panicked := false
+			func() {
+				defer func() {
+					if r := recover(); r != nil {
+						panicked = true
+					}
+				}()
+				for _, x := range xs {
+					switch x.name {
+					case "TextUnmarshaler":
+						b.TextUnmarshaler(x.param, &x.tu)
+					case "MustTextUnmarshaler":
+						b.MustTextUnmarshaler(x.param, &x.tu)
+					case "BindUnmarshaler":
+						b.BindUnmarshaler(x.param, &x.tu)
+					case "MustBindUnmarshaler":
+						b.MustBindUnmarshaler(x.param, &x.tu)
+					case "JSONUnmarshaler":
+						b.JSONUnmarshaler(x.param, &x.tu)
+					case "MustJSONUnmarshaler":
+						b.MustJSONUnmarshaler(x.param, &x.tu)
+					case "String":
+						b.String(x.param, &x.str)
+					case "MustString":
+						b.MustString(x.param, &x.str)
+					case "UnixTime":
+						b.UnixTime(x.param, &x.tm)
+					case "MustUnixTime":
+						b.MustUnixTime(x.param, &x.tm)
+					case "UnixTimeMilli":
+						b.UnixTimeMilli(x.param, &x.tm)
+					case "MustUnixTimeMilli":
+						b.MustUnixTimeMilli(x.param, &x.tm)
+					case "UnixTimeNano":
+						b.UnixTimeNano(x.param, &x.tm)
+					case "MustUnixTimeNano":
+						b.MustUnixTimeNano(x.param, &x.tm)
+					}
+				}
+			}()
+			errs := b.BindErrors()
+			ok, why := true, ""
+			if panicked {
+				ok, why = false, "value binder panicked"
+			}
+			errSeen := false
+			var calls, outs, orcs []Sx
+			var hs []string
+			for _, x := range xs {
+				must := strings.HasPrefix(x.name, "Must")
+				var preset, got, want *big.Int // want == nil: the text is not valid for this destination
+				fam, bits := 5, 8
+				switch {
+				case strings.Contains(x.name, "Unmarshaler"):
+					preset, got = big.NewInt(7), big.NewInt(int64(x.tu.V))
+					if n8, perr := strconv.ParseInt(x.text, 10, 8); perr == nil {
+						want = big.NewInt(n8)
+					}
+				case strings.Contains(x.name, "String"):
+					fam, bits = 6, 64
+					preset, got, want = encStr("PRESET"), encStr(x.str), encStr(x.text)
+				default:
+					fam, bits = 7, map[bool]int{true: 1}[x.name == "UnixTime" || x.name == "MustUnixTime"]
+					unit := int64(1_000_000_000)
+					if strings.Contains(x.name, "Milli") {
+						bits, unit = 2, 1_000_000
+					} else if strings.Contains(x.name, "Nano") {
+						bits, unit = 3, 1
+					}
+					preset, got = encTime(time.Unix(7, 0)), encTime(x.tm)
+					if n64, perr := strconv.ParseInt(x.text, 10, 64); perr == nil {
+						want = new(big.Int).Mul(big.NewInt(n64), big.NewInt(unit)) // that many seconds / milliseconds / nanoseconds after the epoch
+					}
+				}
+				skipped := ff && errSeen
+				switch {
+				case skipped || x.text == "" || want == nil:
+					if got.Cmp(preset) != 0 {
+						ok, why = false, fmt.Sprintf("%s(%q) must not write its destination (skipped=%v) but it changed", x.name, x.text, skipped)
+					}
+					if !skipped && (x.text == "" && must || x.text != "" && want == nil) {
+						errSeen = true
+					}
+				case got.Cmp(want) != 0:
+					ok, why = false, fmt.Sprintf("%s(%q): the destination does not hold the value the text denotes", x.name, x.text)
+				}
+				if x.text != "" {
+					if want != nil {
+						orcs = append(orcs, L(I(fam), I(bits), S(x.text), B(true), Big(want)))
+					} else {
+						orcs = append(orcs, L(I(fam), I(bits), S(x.text), B(false), I(0)))
+					}
+				}
+				calls = append(calls, L(I(0), S(x.name), S(x.text), Big(preset)))
+				outs = append(outs, L(I(0), Big(got)))
+				hs = append(hs, fmt.Sprintf("%s(%q)", x.name, x.text))
+			}
+			if (len(errs) > 0) != errSeen {
+				ok, why = false, fmt.Sprintf("binder reports error=%v but per the texts an error is %v (failFast=%v)", len(errs) > 0, errSeen, ff)
+			}
+			in := L(I(0), B(ff), L(calls...), L(orcs...))
+			emit(Case{In: in, Out: L(L(outs...), B(len(errs) > 0)), Ok: ok, Why: why, Key: Show(in),
+				Human: fmt.Sprintf("ValueBinder failFast=%v hand-written scalar methods: %s; error=%v", ff, strings.Join(hs, " "), len(errs) > 0)})
+			dist["unmarshaler_string_unixtime_chains"]++
+			continue
+		}
 		if rng.Intn(3) == 0 {
 			// ---------------- struct binding, one field
 			st := structT{I: 7, I8: 7, I16: 7, I32: 7, I64: 7, U: 7, U8: 7, U16: 7, U32: 7, U64: 7, B: true, F32: 7, F64: 7}
@@ -299,6 +444,7 @@ func genC08(rng *rand.Rand, n int, emit func(Case), dist map[string]int) {
 			vals  []string
 			dest  reflect.Value
 			param string
+			delim string // non-empty: bound through BindWithDelimiter / MustBindWithDelimiter
 		}
 		mkChain := func(base int) []callT {
 			var cs []callT
@@ -311,10 +457,19 @@ func genC08(rng *rand.Rand, n int, emit func(Case), dist map[string]int) {
 				} else if rng.Intn(8) == 0 {
 					nv = 0
 				}
+				if m.slice && rng.Intn(4) == 0 {
+					ct.delim = []string{",", "|", "::", "; "}[rng.Intn(4)]
+				}
 				for j := 0; j < nv; j++ {
 					v := pick()
 					if rng.Intn(2) == 0 {
 						v = []string{"1", "127", "-128", "255", "300", "70000", "-1", "x"}[rng.Intn(8)]
+					}
+					if ct.delim != "" {
+						// one request value carrying several items
+						for extra := rng.Intn(3); extra > 0; extra-- {
+							v += ct.delim + []string{"1", "127", "-128", "255", "300", "-1", "x", "", "1s", "true", "2.5"}[rng.Intn(11)]
+						}
 					}
 					ct.vals = append(ct.vals, v)
 					q.Add(ct.param, v)
@@ -333,8 +488,42 @@ func genC08(rng *rand.Rand, n int, emit func(Case), dist map[string]int) {
 		}
 		chains := [][]callT{mkChain(0), mkChain(10)}
 		req := httptest.NewRequest(http.MethodGet, "/?"+q.Encode(), nil)
+		src := rng.Intn(4) // 0,1 query string; 2 path parameters; 3 form fields of a POST body
+		if src == 3 {
+			req = httptest.NewRequest(http.MethodPost, "/", strings.NewReader(q.Encode()))
+			req.Header.Set(echo.HeaderContentType, echo.MIMEApplicationForm)
+		}
 		c := recycledContext(e, req, httptest.NewRecorder())
-		b := echo.QueryParamsBinder(c).FailFast(ff)
+		b := echo.QueryParamsBinder(c)
+		switch src {
+		case 2:
+			// a path parameter has ONE value, and an empty one counts as absent (also for the slice methods)
+			var pn, pv []string
+			for ci := range chains {
+				for k := range chains[ci] {
+					ct := &chains[ci][k]
+					if len(ct.vals) > 1 {
+						ct.vals = ct.vals[:1]
+					}
+					if len(ct.vals) == 1 && ct.vals[0] == "" {
+						ct.vals = nil
+					}
+					if len(ct.vals) == 1 {
+						pn, pv = append(pn, ct.param), append(pv, ct.vals[0])
+					}
+				}
+			}
+			req = httptest.NewRequest(http.MethodGet, "/", nil)
+			c = recycledContext(e, req, httptest.NewRecorder())
+			c.SetParamNames(pn...)
+			c.SetParamValues(pv...)
+			b = echo.PathParamsBinder(c)
+			dist["chains_over_path_params"]++
+		case 3:
+			b = echo.FormFieldBinder(c)
+			dist["chains_over_form_fields"]++
+		}
+		b = b.FailFast(ff)
 		for ci, chain := range chains {
 			if ci == 1 {
 				if it+1 >= n {
@@ -350,6 +539,14 @@ func genC08(rng *rand.Rand, n int, emit func(Case), dist map[string]int) {
 					}
 				}()
 				for _, ct := range chain {
+					if ct.delim != "" {
+						if strings.HasPrefix(ct.m.name, "Must") {
+							b.MustBindWithDelimiter(ct.param, ct.dest.Interface(), ct.delim)
+						} else {
+							b.BindWithDelimiter(ct.param, ct.dest.Interface(), ct.delim)
+						}
+						continue
+					}
 					reflect.ValueOf(b).MethodByName(ct.m.name).Call([]reflect.Value{reflect.ValueOf(ct.param), ct.dest})
 				}
 			}()
@@ -377,6 +574,12 @@ func genC08(rng *rand.Rand, n int, emit func(Case), dist map[string]int) {
 				var want []interface{}
 				if !skipped {
 					vs := ct.vals
+					if ct.delim != "" {
+						vs = nil
+						for _, v := range ct.vals {
+							vs = append(vs, strings.Split(v, ct.delim)...)
+						}
+					}
 					if !ct.m.slice {
 						if len(vs) == 0 || vs[0] == "" {
 							vs = nil
@@ -449,8 +652,14 @@ func genC08(rng *rand.Rand, n int, emit func(Case), dist map[string]int) {
 					c08Preset(preset)
 					if f, _ := famBits(ct.m.elem); f >= 2 {
 						for _, v := range ct.vals {
-							if v != "" || ct.m.slice {
-								orcs = append(orcs, oracle(ct.m.elem, v))
+							pieces := []string{v}
+							if ct.delim != "" {
+								pieces = strings.Split(v, ct.delim)
+							}
+							for _, pc := range pieces {
+								if pc != "" || ct.m.slice {
+									orcs = append(orcs, oracle(ct.m.elem, pc))
+								}
 							}
 						}
 					}
@@ -459,7 +668,12 @@ func genC08(rng *rand.Rand, n int, emit func(Case), dist map[string]int) {
 						for i := 0; i < ct.dest.Elem().Len(); i++ {
 							ds = append(ds, encVal(ct.dest.Elem().Index(i)))
 						}
-						calls = append(calls, L(I(1), S(ct.m.name), LS(ct.vals), L(encVal(preset), encVal(preset))))
+						if ct.delim != "" {
+							calls = append(calls, L(I(2), S(ct.m.name), LS(ct.vals), L(encVal(preset), encVal(preset)), S(ct.delim)))
+							dist["delimiter_split_calls"]++
+						} else {
+							calls = append(calls, L(I(1), S(ct.m.name), LS(ct.vals), L(encVal(preset), encVal(preset))))
+						}
 						outs = append(outs, L(I(1), L(ds...)))
 					} else {
 						v := ""
@@ -554,3 +768,19 @@ func c08Equal(v reflect.Value, want interface{}) bool {
 	}
 	return false
 }
+
+// c08Text is a destination with its own text conversion (encoding.TextUnmarshaler, echo.BindUnmarshaler, json.Unmarshaler):
+// a decimal int8, stored only when the text is valid.
+type c08Text struct{ V int8 }
+
+func (t *c08Text) set(s string) error {
+	n, err := strconv.ParseInt(s, 10, 8)
+	if err != nil {
+		return err
+	}
+	t.V = int8(n)
+	return nil
+}
+func (t *c08Text) UnmarshalText(b []byte) error  { return t.set(string(b)) }
+func (t *c08Text) UnmarshalParam(s string) error { return t.set(s) }
+func (t *c08Text) UnmarshalJSON(b []byte) error  { return t.set(string(b)) }
